@@ -144,6 +144,7 @@ func (w *webWriter) flushWithTrailer() {
 	} else {
 		// Trailers-only response: the trailers travel as plain headers.
 		hdr := w.Header()
+		hdr.Set("Content-Type", w.typ+"+"+w.enc) // override content-type
 		for key, val := range hdr {
 			if strings.HasPrefix(key, http.TrailerPrefix) {
 				delete(hdr, key)
